@@ -120,7 +120,9 @@ def build():
                      'kind_free_text': 'explicit TLA+ specification (spec/*.tla) model-checked with TLC; spec->code vectors and code->spec trace validation of recorded observations'}],
         'checks': checks,
         'notes': 'Exit codes of bin/check: 0 held (KNOWN-FINDING lines allowed), 1 violation (VIOLATION lines), 2 machinery failure. '
-                 'known_findings.json lists open findings and fixed defects (fix: commits in /repo).',
+                 'known_findings.json lists open findings and fixed defects (fix: commits in /repo). '
+                 'bin/check --extras [--tier thorough] checks the implementation against the part of the specification that goes beyond the '
+                 'listed properties (spec/Objects.tla: QRCode / QRCodeSequence object model); it reports NONCONFORMANCE lines, never a property violation.',
         'not_applicable': na,
     }
     return m
